@@ -63,7 +63,7 @@ mod verif_c18_multi {
         std::mem::forget(ms);
     }
 
-    // @harness id=C18 tier=thorough timeout=3400 mem=16 checks=rust
+    // @harness id=C18 tier=deep timeout=3400 mem=16 checks=rust
     // @bounds MultiState with 2 drawn members: println whose draw number 0 fails, then a healthy forced draw: no panic, io::Result-returning calls report the error, the follow-up works
     #[kani::proof]
     #[kani::unwind(6)]
@@ -72,7 +72,7 @@ mod verif_c18_multi {
         multi_op(0, 0);
     }
 
-    // @harness id=C18 tier=thorough timeout=3400 mem=16 checks=rust
+    // @harness id=C18 tier=deep timeout=3400 mem=16 checks=rust
     // @bounds MultiState with 2 drawn members: clear whose draw number 0 fails, then a healthy forced draw: no panic, io::Result-returning calls report the error, the follow-up works
     #[kani::proof]
     #[kani::unwind(6)]
@@ -81,7 +81,7 @@ mod verif_c18_multi {
         multi_op(1, 0);
     }
 
-    // @harness id=C18 tier=thorough timeout=3400 mem=16 checks=rust
+    // @harness id=C18 tier=deep timeout=3400 mem=16 checks=rust
     // @bounds MultiState with 2 drawn members: suspend whose draw number 0 fails, then a healthy forced draw: no panic, io::Result-returning calls report the error, the follow-up works
     #[kani::proof]
     #[kani::unwind(6)]
@@ -90,7 +90,7 @@ mod verif_c18_multi {
         multi_op(2, 0);
     }
 
-    // @harness id=C18 tier=thorough timeout=3400 mem=16 checks=rust
+    // @harness id=C18 tier=deep timeout=3400 mem=16 checks=rust
     // @bounds MultiState with 2 drawn members: suspend whose draw number 1 fails, then a healthy forced draw: no panic, io::Result-returning calls report the error, the follow-up works
     #[kani::proof]
     #[kani::unwind(6)]
@@ -99,7 +99,7 @@ mod verif_c18_multi {
         multi_op(2, 1);
     }
 
-    // @harness id=C18 tier=thorough timeout=3400 mem=16 checks=rust
+    // @harness id=C18 tier=deep timeout=3400 mem=16 checks=rust
     // @bounds MultiState with 2 drawn members: forced_draw whose draw number 0 fails, then a healthy forced draw: no panic, io::Result-returning calls report the error, the follow-up works
     #[kani::proof]
     #[kani::unwind(6)]
